@@ -697,7 +697,18 @@ class Executor:
         yield st, self.lookup(node.id, st)
 
     def ex_JoinedStr(self, node, st):
-        yield st, self._opaque(node, st)
+        # f-strings made of plain {name} fields and literal text become ('fstr', part...) terms
+        vals = []
+        for v in node.values:
+            if isinstance(v, ast.Constant):
+                vals.append(v)
+            elif isinstance(v, ast.FormattedValue) and v.conversion == -1 and v.format_spec is None:
+                vals.append(v.value)
+            else:
+                yield st, self._opaque(node, st)
+                return
+        for s1, ts in self.eval_seq(vals, st):
+            yield s1, (ts if is_raise(ts) else ("fstr",) + tuple(ts))
 
     def ex_Lambda(self, node, st):
         yield st, ("lambda", node, st.frame.mod)
